@@ -241,17 +241,60 @@ CANON_FUNCS = {'np.log10': 'log10', 'math.log10': 'log10', 'numpy.log10': 'log10
 TRANSPARENT = {'cast', 'float', 'np.asarray', 'np.array', 'np.real'}
 
 
+TINY = 1e-9
+
+
+def _snap_test(test: ast.AST) -> Optional[str]:
+    """`abs(X) < tiny` with a literal tiny <= 1e-9: returns norm(X) (the snap-to-zero idiom), else None."""
+    if isinstance(test, ast.Compare) and len(test.ops) == 1 and isinstance(test.ops[0], (ast.Lt, ast.LtE)) and \
+            isinstance(test.left, ast.Call) and norm(test.left.func) in ('abs', 'np.abs', 'np.absolute') and \
+            len(test.left.args) == 1 and isinstance(test.comparators[0], ast.Constant) and \
+            isinstance(test.comparators[0].value, float) and 0 < test.comparators[0].value <= TINY:
+        return norm(test.left.args[0])
+    return None
+
+
+def is_snap_store(s: ast.stmt) -> bool:
+    """`X[abs(X) < tiny] = 0`: rounds values below a literal tiny threshold to exactly zero; the formula of X is
+    unchanged up to that threshold (treated as the identity, as an assumption that is reported)."""
+    return isinstance(s, ast.Assign) and len(s.targets) == 1 and isinstance(s.targets[0], ast.Subscript) and \
+        isinstance(s.targets[0].value, ast.Name) and _snap_test(s.targets[0].slice) == s.targets[0].value.id and \
+        isinstance(s.value, ast.Constant) and s.value.value == 0
+
+
 class Env:
     """Symbol table for one function body (single-assignment locals are substituted)."""
 
     def __init__(self, model: Optional[Model], fn: Optional[FuncInfo], inline: Optional[Set[str]] = None,
-                 self_call: Optional[Callable[[str, List[Term]], Optional[Term]]] = None):
+                 self_call: Optional[Callable[[str, List[Term]], Optional[Term]]] = None,
+                 opaque: Optional[Set[str]] = None):
         self.model, self.fn = model, fn
         self.vars: Dict[str, Term] = {}
         self.fun_alias: Dict[str, str] = {}      # log10 = np.log10
         self.inline = inline or set()
         self.self_call = self_call
+        # opaque is not None: every statically resolved repo callee NOT named in it is inlined (helpers extracted by a
+        # refactoring are looked through), and module-level constants are expanded; the names in it stay the
+        # uninterpreted vocabulary of the specification.
+        self.opaque = opaque
         self.depth = 0
+        self._locals: Optional[Set[str]] = None
+
+    def clone(self) -> 'Env':
+        e = Env(self.model, self.fn, self.inline, self.self_call, self.opaque)
+        e.vars, e.fun_alias, e.depth = dict(self.vars), dict(self.fun_alias), self.depth
+        return e
+
+    def local_names(self) -> Set[str]:
+        if self._locals is None:
+            out: Set[str] = set()
+            if self.fn is not None:
+                out |= set(self.fn.params)
+                for n in ast.walk(self.fn.node):
+                    if isinstance(n, ast.Name) and isinstance(n.ctx, (ast.Store, ast.Del)):
+                        out.add(n.id)
+            self._locals = out
+        return self._locals
 
 
 def from_ast(e: ast.AST, env: Env) -> Term:
@@ -262,6 +305,17 @@ def from_ast(e: ast.AST, env: Env) -> Term:
     if isinstance(e, ast.Name):
         if e.id in env.vars:
             return env.vars[e.id]
+        if env.opaque is not None and env.model is not None and env.fn is not None and env.depth < 8 \
+                and e.id not in env.local_names():
+            c = env.model.module_constant(env.fn.module, e.id)
+            if c is not None and not isinstance(c, (ast.Lambda, ast.Dict, ast.List, ast.Set)):
+                ce = Env(env.model, env.fn, env.inline, None, env.opaque)
+                ce._locals = set()
+                ce.depth = env.depth + 1
+                try:
+                    return from_ast(c, ce)
+                except Unknown:
+                    pass
         return Term.sym(e.id)
     if isinstance(e, ast.Attribute):
         s = norm(e)
@@ -300,6 +354,8 @@ def from_ast(e: ast.AST, env: Env) -> Term:
         if fname is not None and not kw:
             return t_call(fname, args)
         if fs in ('np.where', 'numpy.where') and len(args) == 3 and not kw:
+            if _snap_test(e.args[0]) == norm(e.args[2]) and args[1].is_const() and args[1].const_value() == 0:
+                return args[2]          # snap-to-zero idiom: the identity up to the literal tiny threshold
             # piecewise value: the same term on both sides is that term; otherwise it stays an explicit piecewise atom
             if args[1] == args[2]:
                 return args[1]
@@ -318,6 +374,32 @@ def from_ast(e: ast.AST, env: Env) -> Term:
                     raise Unknown('arity of %s' % fs)
                 sub = dict(zip(params, args))
                 sub.update(kw)
+                return substitute(body, sub)
+        if env.opaque is not None and short not in env.opaque and env.model is not None and env.fn is not None:
+            g = env.model.resolve_call(env.fn, e)
+            if g is not None:
+                try:
+                    if env.depth >= 6:
+                        raise Unknown('helper nesting too deep at %s' % fs)
+                    params, body = function_term(env.model, g, env.inline, depth=env.depth + 1, self_call=env.self_call,
+                                                 opaque=env.opaque)
+                except Unknown:
+                    # not a plain formula: the call stays an uninterpreted atom (sound: equal to nothing but itself)
+                    return Term.atom(('call', fs, tuple(a.key() for a in args) + tuple(('kw', k, v.key()) for k, v in sorted(kw.items()))))
+                if len(params) < len(args) or '**' in kw:
+                    raise Unknown('arity of %s' % fs)
+                sub = dict(zip(params, args))
+                sub.update(kw)
+                missing = [p for p in params if p not in sub]
+                if missing:
+                    a = g.node.args
+                    pos = a.posonlyargs + a.args
+                    defaults = dict(zip([x.arg for x in pos[len(pos) - len(a.defaults):]], a.defaults))
+                    defaults.update({x.arg: d for x, d in zip(a.kwonlyargs, a.kw_defaults) if d is not None})
+                    for pn in missing:
+                        if pn not in defaults:
+                            raise Unknown('missing argument %s of %s' % (pn, fs))
+                        sub[pn] = from_ast(defaults[pn], Env(None, None))
                 return substitute(body, sub)
         return Term.atom(('call', fs, tuple(a.key() for a in args) + tuple(('kw', k, v.key()) for k, v in sorted(kw.items()))))
     if isinstance(e, ast.Subscript):
@@ -359,20 +441,22 @@ def _subst_atom(a: Atom, sub: Dict[str, Term]) -> Term:
 
 
 def function_term(model: Optional[Model], fn: FuncInfo, inline: Optional[Set[str]] = None, depth: int = 0,
-                  self_call=None) -> Tuple[List[str], Term]:
+                  self_call=None, opaque: Optional[Set[str]] = None) -> Tuple[List[str], Term]:
     """(parameter names, normal form of the returned value) of a straight-line scalar function.
 
     Accepted statements: single-target assignments of formulas to locals, function aliases chosen by a branch
     (`log10 = np.log10` / `math.log10`), if/else whose branches produce the same normal forms, a final return.
     Anything else raises Unknown.
     """
-    env = Env(model, fn, inline, self_call)
+    env = Env(model, fn, inline, self_call, opaque)
     env.depth = depth
     params = [p for p in fn.params if p not in ('self', 'cls')]
 
     def run(body: List[ast.stmt], env: Env) -> Optional[Term]:
         for s in body:
             if isinstance(s, ast.Expr) and isinstance(s.value, ast.Constant):
+                continue
+            if is_snap_store(s):
                 continue
             if isinstance(s, (ast.Assign, ast.AnnAssign)):
                 tg = s.targets[0] if isinstance(s, ast.Assign) else s.target
@@ -391,10 +475,7 @@ def function_term(model: Optional[Model], fn: FuncInfo, inline: Optional[Set[str
                     raise Unknown('bare return')
                 return from_ast(s.value, env)
             if isinstance(s, ast.If):
-                e1 = Env(env.model, env.fn, env.inline, env.self_call)
-                e1.vars, e1.fun_alias, e1.depth = dict(env.vars), dict(env.fun_alias), env.depth
-                e2 = Env(env.model, env.fn, env.inline, env.self_call)
-                e2.vars, e2.fun_alias, e2.depth = dict(env.vars), dict(env.fun_alias), env.depth
+                e1, e2 = env.clone(), env.clone()
                 r1 = run(s.body, e1)
                 r2 = run(s.orelse, e2) if s.orelse else None
                 if (r1 is None) != (r2 is None) and s.orelse:
@@ -435,20 +516,20 @@ def parse_spec(src: str, env: Optional[Env] = None, **symbols: Term) -> Term:
 
 # ---------------------------------------------------------------------------------------------
 def path_terms(model: Optional[Model], fn: FuncInfo, inline: Optional[Set[str]] = None, self_call=None,
-               limit: int = 32) -> List[Tuple[Tuple[str, ...], Term]]:
+               limit: int = 32, opaque: Optional[Set[str]] = None) -> List[Tuple[Tuple[str, ...], Term]]:
     """Normal form of the returned value along every path of a loop-free function: [(conditions, term)]."""
     results: List[Tuple[Tuple[str, ...], Term]] = []
 
     def clone(env: Env) -> Env:
-        e = Env(env.model, env.fn, env.inline, env.self_call)
-        e.vars, e.fun_alias, e.depth = dict(env.vars), dict(env.fun_alias), env.depth
-        return e
+        return env.clone()
 
     def run(body: List[ast.stmt], env: Env, conds: Tuple[str, ...], rest: List[List[ast.stmt]]) -> None:
         if len(results) > limit:
             raise Unknown('too many paths')
         for i, s in enumerate(body):
             if isinstance(s, ast.Expr) and isinstance(s.value, ast.Constant):
+                continue
+            if is_snap_store(s):
                 continue
             if isinstance(s, (ast.Assign, ast.AnnAssign)):
                 tg = s.targets[0] if isinstance(s, ast.Assign) else s.target
@@ -480,14 +561,15 @@ def path_terms(model: Optional[Model], fn: FuncInfo, inline: Optional[Set[str]] 
         if rest:
             run(rest[0], env, conds, rest[1:])
 
-    env = Env(model, fn, inline, self_call)
+    env = Env(model, fn, inline, self_call, opaque)
     run(fn.node.body, env, (), [])
     if not results:
         raise Unknown('function %s has no return of a formula' % fn.qualname)
     return results
 
 
-def local_terms(model: Optional[Model], fn: FuncInfo, inline: Optional[Set[str]] = None) -> Dict[str, Term]:
+def local_terms(model: Optional[Model], fn: FuncInfo, inline: Optional[Set[str]] = None,
+                opaque: Optional[Set[str]] = None) -> Dict[str, Term]:
     """Normal forms of the single-assignment locals of fn that are plain formulas (others are skipped)."""
     counts: Dict[str, int] = {p: 1 for p in fn.params}     # a re-assigned parameter is not single-assignment
     for n in walk_no_nested(fn.node):
@@ -500,7 +582,7 @@ def local_terms(model: Optional[Model], fn: FuncInfo, inline: Optional[Set[str]]
             for x in ast.walk(n.target):
                 if isinstance(x, ast.Name):
                     counts[x.id] = counts.get(x.id, 0) + 2
-    env = Env(model, fn, inline)
+    env = Env(model, fn, inline, None, opaque)
     out: Dict[str, Term] = {}
     for n in sorted((n for n in walk_no_nested(fn.node) if isinstance(n, (ast.Assign, ast.AnnAssign))),
                     key=lambda n: n.lineno):
